@@ -44,6 +44,7 @@ type FuncContract struct {
 	Pure       bool
 	PureIf     *Clause // the function writes nothing visible to callers when this holds at entry
 	NoSafety   bool // do not emit safety obligations (function only used as a callee contract)
+	Stable     []string // slices whose backing arrays are assumed not to be written during the call
 	Split      []string // case-split expressions (each obligation proved per case)
 	Timeout    int
 	File       string
@@ -243,6 +244,9 @@ func (cs *ContractSet) parseFile(path, pkg string) error {
 				cur.PureIf = cl
 			case "nosafety":
 				cur.NoSafety = true
+			case "stable":
+				cur.Stable = append(cur.Stable, rest)
+				lastText = nil
 			case "split":
 				cur.Split = append(cur.Split, rest)
 				lastText = &cur.Split[len(cur.Split)-1]
